@@ -175,14 +175,14 @@ Lemma inv_set_st c lo w s : Inv c lo w -> st_epoch_le s lo ->
 Proof. intros I Hs Hr Hg. destruct I. constructor; cbn; assumption. Qed.
 
 (* ---------- the registration transition ---------- *)
-Lemma inv_register c lo w te r :
+Lemma inv_register c lo w te cf r :
   Inv c lo w -> lo = te -> st w = Unreg te ->
-  Inv c lo (register_transition w te te r).
+  Inv c lo (register_transition w te te cf r).
 Proof.
   intros I -> Hst. pose proof I as I0. destruct I.
   unfold register_transition.
   destruct (signer_key_epoch te) as [k| |] eqn:Hk; try assumption.
-  set (d := {| ed_epoch := te; ed_init := if memN k (inits w) then Some k else None;
+  set (d := {| ed_epoch := te; ed_cfg := cf; ed_init := if memN k (inits w) then Some k else None;
                ed_cur_me := memN k (agg_me w) |}).
   (* facts about the new epoch data, valid for any store extension *)
   assert (Hd_init : forall k', ed_init d = Some k' -> k' = k /\ In k (inits w)).
@@ -258,6 +258,9 @@ Proof.
       * auto.
       * intros x Hx; right; auto.
       * left; reflexivity.
+    + (* RegAmbig *)
+      apply Hgen; auto; rewrite ?Hst; cbn; try lia;
+        try (intros e He; discriminate); try (intros e [He|He]; discriminate).
 Qed.
 
 (* ---------- the signing transition ---------- *)
@@ -334,6 +337,7 @@ Proof.
     + assert (He : e = te).
       { pose proof (i_st _ _ _ I) as Hs. rewrite Hst in Hs. cbn in Hs. lia. }
       subst e.
+      destruct (ed w) as [d0|] eqn:Hed0; [|assumption].
       destruct (entities_of _ _ _) as [xs| |] eqn:Hxs; try assumption.
       destruct (first_unsigned xs (signed w)) as [x|] eqn:Hfu; [|assumption].
       apply first_unsigned_spec in Hfu as [Hin Hnot].
@@ -363,8 +367,8 @@ Lemma inv_run c evs : wf 0 evs -> Inv c (last_epoch 0 evs) (run c evs).
 Proof. intros H. apply inv_run_from; [apply inv_w0; reflexivity | assumption]. Qed.
 
 (* ---------- step-local facts (no invariant needed) ---------- *)
-Lemma register_keeps_atts w te a r :
-  atts (register_transition w te a r) = atts w /\ signed (register_transition w te a r) = signed w.
+Lemma register_keeps_atts w te a ce r :
+  atts (register_transition w te a ce r) = atts w /\ signed (register_transition w te a ce r) = signed w.
 Proof.
   unfold register_transition. destruct (signer_key_epoch a); try (split; reflexivity).
   destruct (memN _ _); [unfold set_st; destruct (match _ with Some _ => _ | None => _ end); split; reflexivity|].
@@ -395,6 +399,7 @@ Proof.
     destruct (te - lag <? e); [intros H; exfalso; apply H; reflexivity|].
     intros H; exfalso; apply H. apply register_keeps_atts.
   - destruct (new_epoch te e); [intros H; exfalso; apply H; reflexivity|].
+    destruct (ed w) as [d0|] eqn:Hed0; [|intros H; exfalso; apply H; reflexivity].
     destruct (entities_of _ _ _) as [xs| |]; try (intros H; exfalso; apply H; reflexivity).
     destruct (first_unsigned _ _) as [x|]; [|intros H; exfalso; apply H; reflexivity].
     intros _. exists e. split; [reflexivity|].
@@ -411,14 +416,15 @@ Proof.
   - intros H1 H2; contradiction.
   - destruct (new_epoch te e); [intros H1 H2; contradiction|].
     destruct down; [intros H1 H2; contradiction|].
-    destruct (signer_key_epoch e); try (intros H1 H2; contradiction).
+    destruct (signer_key_epoch e) as [n| |]; try (intros H1 H2; contradiction).
     destruct (te - lag <? e); [intros H1 H2; contradiction|].
-    destruct (register_keeps_atts w te (te - lag) r) as [-> _]. intros H1 H2; contradiction.
+    destruct (register_keeps_atts w te (te - lag) n r) as [-> _]. intros H1 H2; contradiction.
   - destruct (new_epoch te e); [intros H1 H2; contradiction|].
+    destruct (ed w) as [d|] eqn:Hed0; [|intros H1 H2; contradiction].
     destruct (entities_of _ _ _) as [xs| |]; try (intros H1 H2; contradiction).
     destruct (first_unsigned xs (signed w)) as [x|] eqn:Hfu; [|intros H1 H2; contradiction].
     apply first_unsigned_spec in Hfu as [_ Hnot].
-    unfold sign_transition. destruct (ed w) as [d|]; [|intros H1 H2; contradiction].
+    unfold sign_transition. rewrite Hed0.
     destruct (negb _); [intros H1 H2; contradiction|].
     destruct (ed_init d) as [k|]; [|intros H1 H2; contradiction].
     destruct (negb _); [intros H1 H2; contradiction|].
@@ -523,4 +529,22 @@ Lemma restart_resumes_run c evs e i1 b1 r1 p1 i2 b2 r2 p2 : wf 0 evs -> st (run 
 Proof.
   intros Hwf Hst w w'. unfold w'. rewrite run_app.
   eapply restart_resumes; [apply inv_run; assumption | assumption].
+Qed.
+
+(* every stored initializer was acknowledged; registered states hold the key of their recording epoch *)
+Lemma recording_epoch_inj a b : recording_epoch a = recording_epoch b -> a = b.
+Proof. unfold recording_epoch. lia. Qed.
+
+Lemma stored_keys_acknowledged c evs : wf 0 evs ->
+  (forall k, In k (inits (run c evs)) ->
+     exists r, In (k, r) (regs (run c evs)) /\ k = recording_epoch r) /\
+  (forall e, st (run c evs) = Ready e \/ st (run c evs) = RNATS e ->
+     In (recording_epoch e) (inits (run c evs)) /\ In (recording_epoch e, e) (regs (run c evs))).
+Proof.
+  intros Hwf. pose proof (inv_run c evs Hwf) as I. destruct I. split.
+  - intros k Hk. destruct (i_inits_regs0 k Hk) as [r Hr]. exists r. split; [assumption|].
+    apply (i_regs0 k r Hr).
+  - intros e He. pose proof (i_registered0 e He) as Hin. split; [assumption|].
+    destruct (i_inits_regs0 _ Hin) as [r Hr]. destruct (i_regs0 _ _ Hr) as (Heq & _ & _).
+    apply recording_epoch_inj in Heq. subst r. assumption.
 Qed.
